@@ -102,7 +102,7 @@ Definition do_call (r : rt) (last : option N) (call : str) : res (rt * list str 
   else if c0 =? 88 then keep (do x <- rt_execute O r (num_of call); Ok (fst x, [show_event (snd x)]))  (* X<n> *)
   else if c0 =? 65 then                        (* A<q>:<hex> : answer a pending INPUT, then run *)
     match r_state r with
-    | StInput =>
+    | StInput | StInkey =>
         match split_on 58 rest [] with
         | [q; h] =>
             do x <- rt_enter O r (str_of_hex h);
